@@ -837,6 +837,19 @@ func (c *c14Case) checkStep(t *rapid.T, reqs []*c14Req, resps []c14Resp, h0, u0 
 	}
 	for i, r := range reqs {
 		if resps[i].code != 200 {
+			// An error answer must not release a cosignature of a checkpoint
+			// that the lock store does not hold.
+			if strings.HasPrefix(resps[i].body, "— ") || strings.Contains(resps[i].body, "\n— ") {
+				held := false
+				for _, e := range writes {
+					if c14NoteText(e.val) == r.text {
+						held = true
+					}
+				}
+				if !held {
+					c.fail(t, reqs, resps, "request %d: error answer %d carries signature lines although its checkpoint was not recorded", i, resps[i].code)
+				}
+			}
 			continue
 		}
 		k := wkey{r.text, r.old}
